@@ -261,8 +261,16 @@ impl<'a> Planner<'a> {
         // they are listed here -- so the keys that are selected come first, in select order.
         let mut ordered_keys: Vec<BoundExpression> = Vec::with_capacity(group_by.len());
         for item in columns {
-            if group_by.contains(&item.expr) && !ordered_keys.contains(&item.expr) {
-                ordered_keys.push(item.expr.clone());
+            if group_by.contains(&item.expr) {
+                if !ordered_keys.contains(&item.expr) {
+                    ordered_keys.push(item.expr.clone());
+                }
+            } else if !matches!(item.expr, BoundExpression::Aggregate { .. }) {
+                // Nothing evaluates an expression OVER the keys or the aggregates of a group
+                return Err(PlannerError::Other(
+                    "a select item of an aggregate query must be an aggregate or a GROUP BY key"
+                        .to_string(),
+                ));
             }
         }
         for key in group_by {
